@@ -60,10 +60,15 @@ def api_state(api):
 
 
 def bridge_state(bridge):
+    """Canonical view of a bridge object; configured port numbers are replaced by their index."""
+    ports = list(getattr(bridge, "_broadcast_ports", []))
+    idx = {p: i for i, p in enumerate(ports)}
     out = []
     for k, v in sorted(vars(bridge).items()):
         if k == "_transports":
-            out.append((k, tuple(sorted((p, (t is not None and not t.is_closing())) for p, t in v.items()))))
+            out.append((k, tuple(sorted((idx.get(p, p), (t is not None and not t.is_closing())) for p, t in v.items()))))
+        elif k == "_broadcast_ports":
+            out.append((k, len(v)))
         elif callable(v):
             out.append((k, "callable"))
         else:
